@@ -1,6 +1,118 @@
-//! One level of nesting (combinators as children of combinators).
-use crate::cuts::Cut;
+//! One level of nesting (combinators as children of combinators).  The scripted children are the
+//! leaves; the inner combinators are not instrumented themselves - the monitors see the leaves being
+//! polled with the inner combinators' sub-wakers and the outer combinator's results.
+//!
+//!   nest_join_join    (join[c0, c1], c2).join()                         outer tuple join, inner array join
+//!   nest_join_merge   (collect(merge[s0, s1]), c2).join()               a future draining a merge, joined with a future
+//!   nest_merge_groups [StreamGroup{s0, s1}, StreamGroup{s2}].merge()    merge of stream groups
+//!   nest_group_join   FutureGroup{ join[c0, c1], join[c2] }             a group whose members are joins
+//!   nest_race_join    (first(join[c0, c1]), c2).race()                  race between a join and a future
+//!   nest_chain_merge  (merge[s0, s1], s2).chain()                       chain whose first input is a merge
 
-pub fn build(fam: &str, cont: &str, n: usize) -> Result<Box<dyn Cut>, String> {
-    Err(format!("unsupported nest {}/{}/{}", fam, cont, n))
+use std::future::Future;
+use std::pin::Pin;
+use std::task::{Context, Poll};
+
+use futures_concurrency::future::FutureGroup;
+use futures_concurrency::prelude::*;
+use futures_concurrency::stream::StreamGroup;
+use futures_core::Stream;
+
+use crate::cuts::{fut_cut, stream_cut, Cut, RetEv};
+use crate::script::{Child, SFut, SStream, Val};
+
+/// Drains a stream into a Vec.
+struct Collect<S: Stream> {
+    s: Pin<Box<S>>,
+    out: Vec<S::Item>,
+}
+impl<S: Stream> Future for Collect<S>
+where
+    S::Item: Unpin,
+{
+    type Output = Vec<S::Item>;
+    fn poll(mut self: Pin<&mut Self>, cx: &mut Context<'_>) -> Poll<Self::Output> {
+        loop {
+            match self.s.as_mut().poll_next(cx) {
+                Poll::Pending => return Poll::Pending,
+                Poll::Ready(None) => return Poll::Ready(std::mem::take(&mut self.out)),
+                Poll::Ready(Some(x)) => self.out.push(x),
+            }
+        }
+    }
+}
+
+/// Maps the output of a future.
+struct MapOut<F: Future, T> {
+    f: Pin<Box<F>>,
+    g: fn(F::Output) -> T,
+}
+impl<F: Future, T> Future for MapOut<F, T> {
+    type Output = T;
+    fn poll(mut self: Pin<&mut Self>, cx: &mut Context<'_>) -> Poll<T> {
+        match self.f.as_mut().poll(cx) {
+            Poll::Pending => Poll::Pending,
+            Poll::Ready(o) => Poll::Ready((self.g)(o)),
+        }
+    }
+}
+
+fn sf(c: usize) -> SFut {
+    SFut(Child::new(c))
+}
+fn ss(c: usize) -> SStream {
+    SStream(Child::new(c))
+}
+
+fn rel(v: Vec<Val>) -> Vec<i64> {
+    v.iter().map(|x| x.release()).collect()
+}
+
+pub fn build(fam: &str, _cont: &str, _n: usize) -> Result<Box<dyn Cut>, String> {
+    let cut: Box<dyn Cut> = match fam {
+        "nest_join_join" => {
+            let inner = [sf(0), sf(1)].join();
+            fut_cut((inner, sf(2)).join(), |(a, c): ([Val; 2], Val)| {
+                let mut out: Vec<i64> = a.iter().map(|x| x.release()).collect();
+                out.push(c.release());
+                RetEv::ready_out(true, out)
+            })
+        }
+        "nest_join_merge" => {
+            let m = Collect { s: Box::pin([ss(0), ss(1)].merge()), out: vec![] };
+            fut_cut((m, sf(2)).join(), |(items, c): (Vec<Val>, Val)| {
+                let mut out = rel(items);
+                out.push(c.release());
+                RetEv::ready_out(true, out)
+            })
+        }
+        "nest_merge_groups" => {
+            let mut g0 = StreamGroup::new();
+            g0.insert(ss(0));
+            g0.insert(ss(1));
+            let mut g1 = StreamGroup::new();
+            g1.insert(ss(2));
+            stream_cut([g0, g1].merge(), |i: Val| RetEv::some_v(i.release(), -1))
+        }
+        "nest_group_join" => {
+            let mut g = FutureGroup::new();
+            g.insert(vec![sf(0), sf(1)].join());
+            g.insert(vec![sf(2)].join());
+            stream_cut(g, |v: Vec<Val>| RetEv::some_out(rel(v)))
+        }
+        "nest_race_join" => {
+            let j = MapOut { f: Box::pin([sf(0), sf(1)].join()), g: |a: [Val; 2]| a.into_iter().collect::<Vec<Val>>() };
+            let single = MapOut { f: Box::pin(sf(2)), g: |v: Val| vec![v] };
+            // both arms have the same output type behind a box
+            let arms: Vec<Pin<Box<dyn Future<Output = Vec<Val>>>>> = vec![Box::pin(j), Box::pin(single)];
+            fut_cut(arms.race(), |v: Vec<Val>| RetEv::ready_out(true, rel(v)))
+        }
+        "nest_chain_merge" => {
+            let m: Pin<Box<dyn Stream<Item = Val>>> = Box::pin([ss(0), ss(1)].merge());
+            let s: Pin<Box<dyn Stream<Item = Val>>> = Box::pin(ss(2));
+            stream_cut(vec![m, s].chain(), |i: Val| RetEv::some_v(i.release(), -1))
+        }
+        _ => return Err(format!("unsupported nest {}", fam)),
+    };
+    Ok(cut)
 }
